@@ -3,6 +3,7 @@ package main
 import (
 	"bytes"
 	"fmt"
+	"sync"
 	"log"
 	"log/slog"
 	"net/http"
@@ -25,9 +26,34 @@ type faultSubject struct {
 	calls  []int     // recover-func invocations by request index (each slot written by its own request only)
 	vals   []any
 	stray  int // recover func called without a request id
-	sink   *bytes.Buffer
+	sink   *lockedSink
 	sinkN  int
 	routers []*mux.Router[*Comp]
+}
+
+// lockedSink is the io.Writer handed to the bundled write/log/slog recovery
+// options: goroutine-safe, as a real log destination would be.
+type lockedSink struct {
+	mu  sync.Mutex
+	buf bytes.Buffer
+}
+
+func (s *lockedSink) Write(p []byte) (int, error) {
+	s.mu.Lock()
+	defer s.mu.Unlock()
+	return s.buf.Write(p)
+}
+
+func (s *lockedSink) Len() int {
+	s.mu.Lock()
+	defer s.mu.Unlock()
+	return s.buf.Len()
+}
+
+func (s *lockedSink) Bytes() []byte {
+	s.mu.Lock()
+	defer s.mu.Unlock()
+	return append([]byte{}, s.buf.Bytes()...)
 }
 
 const reqIDKey = "\x00sim-req"
@@ -80,7 +106,7 @@ func (fs *faultSubject) option(kind string) []mux.Option {
 // buildFaultSubject builds the router or group of a FAULT world from w.Setup.
 func buildFaultSubject(w *World, nreq int) *faultSubject {
 	env := NewEnv()
-	fs := &faultSubject{env: env, recs: make([]*ReqRec, nreq), calls: make([]int, nreq), vals: make([]any, nreq), sink: &bytes.Buffer{}}
+	fs := &faultSubject{env: env, recs: make([]*ReqRec, nreq), calls: make([]int, nreq), vals: make([]any, nreq), sink: &lockedSink{}}
 	opts := append(fs.option(w.Opts.Recovery), mux.WithInterceptor(fs.icFunc, "sim"))
 	if w.Variant == "group" || w.Variant == "group-conc" {
 		base := RouterOpts{Lock: w.Opts.Lock, Trace: w.Opts.Trace}
@@ -206,9 +232,7 @@ func genC16(r *Rng, idx int, tier string) *World {
 	if conc {
 		w.Opts.Lock = true
 		w.Sim = genSim(r)
-		if w.Opts.Recovery != "none" {
-			w.Opts.Recovery = pick(r, []string{"func", "status"}) // the sinks of the bundled write/log options are not goroutine-safe test doubles
-		}
+		// all recovery options take part in the concurrent variants (the sink is goroutine-safe)
 	}
 	var tags []string
 	mwN, hid := 0, 100
@@ -523,6 +547,33 @@ func execC16(w *World, st *Stats) (*Violation, RunInfo) {
 					return mk("original-value", "sink-lacks-value", fmt.Sprintf("the recovery sink received %q which lacks the value's text %q", grown, txt)), info
 				}
 			}
+		}
+	}
+	// every faulting request's value reaches the sink of a write/log/slog recovery
+	if w.Opts.Recovery == "write" || w.Opts.Recovery == "log" || w.Opts.Recovery == "slog" {
+		sink := fs.sink.Bytes()
+		for _, op := range all {
+			f := firedFault(fs.recs[op.N])
+			if f == nil || (f.Val != "ptr" && f.Val != "err" && f.Val != "str" && f.Val != "struct") {
+				continue
+			}
+			if name := strings.TrimSuffix(op.Req.Host, ".example.com"); name != op.Req.Host {
+				over := false
+				for k := range w.Setup {
+					if w.Setup[k].K == "gnew" && w.Setup[k].Name == name && len(w.Setup[k].Args) > 0 && w.Setup[k].Args[0] != "" {
+						over = true
+					}
+				}
+				if over {
+					continue // this router overrides the recovery option
+				}
+			}
+			txt := fmt.Sprint(f.value)
+			// (how often one report repeats the text is the formatter's business: presence is what is demanded)
+			if n := bytes.Count(sink, []byte(txt)); n == 0 {
+				return &Violation{Prop: "C16", Oracle: "original-value", Sig: "sink-lacks-value", Detail: fmt.Sprintf("request #%d %s (fault %s/%s, recovery=%s, variant=%s): the value's text %q never reached the recovery sink", op.N, op.Req, f.Site, f.Phase, w.Opts.Recovery, w.Variant, txt), Step: op.N}, info
+			}
+			st.C("c16_sink_counts_checked")
 		}
 	}
 	if fs.stray > 0 {
